@@ -5,7 +5,10 @@
  *   (1) the response payload, the configuration payload and the user's configuration callback are reached only after
  *       the PDU had a header and a MAC and its verification returned KSI_OK under the endpoint key;
  *   (2) the function returns a response object only in that case;
- *   (3) an error PDU or a parse failure yields no response object and touches no payload;
+ *   (3) an error PDU or a parse failure yields no response object and touches no payload - also when the PDU carries a
+ *       response and / or configuration payload next to the error payload (the presence flags are independent) - and a
+ *       non-zero error status is returned as an error (an error payload with status 0 / without status converts to KSI_OK
+ *       in libksi: then KSI_OK is returned WITHOUT a response object, which every caller treats as a failure);
  *   (4) the PDU object is released exactly once.
  * Real code: the two functions, KSI_RequestHandle_getResponse/getRequest, KSI_convert*StatusCode (net.c). */
 #include "verif.h"
@@ -50,7 +53,7 @@ static const char endpoint_pass[] = "s3cr3t";
 /* symbolic member presence of the parsed PDU / the remembered request */
 static int has_err, has_hdr, has_mac, has_resp, has_conf, req_has_payload, req_has_conf;
 /* ghost state */
-static int g_parse_ok, g_parsed, g_verify_calls, g_payload_touched, g_callback_calls, g_unverified_use, g_wrong_key, g_resp_freed, g_conf_freed, g_fresh;
+static int g_err_status_nonzero, g_parse_ok, g_parsed, g_verify_calls, g_payload_touched, g_callback_calls, g_unverified_use, g_wrong_key, g_resp_freed, g_conf_freed, g_fresh;
 static const unsigned char *g_parse_raw; static size_t g_parse_len;
 
 static int verified_now(const PDU *p) { return p == &the_pdu && the_pdu.verified && has_hdr && has_mac; }
@@ -124,7 +127,12 @@ void KSI_ExtendResp_free(KSI_ExtendResp *t) { if (t != NULL) g_resp_freed++; }
 #endif
 void KSI_Config_free(KSI_Config *t) { if (t != NULL) g_conf_freed++; }
 int KSI_ErrorPdu_getErrorMessage(const KSI_ErrorPdu *t, KSI_Utf8String **m) { (void)t; int s = ST(errmsg_status); if (s != KSI_OK) return s; *m = NULL; return KSI_OK; }
-int KSI_ErrorPdu_getStatus(const KSI_ErrorPdu *t, KSI_Integer **st) { (void)t; int s = ST(errst_status); if (s != KSI_OK) return s; *st = ND_BOOL(err_has_status) ? err_status : NULL; return KSI_OK; }
+int KSI_ErrorPdu_getStatus(const KSI_ErrorPdu *t, KSI_Integer **st) {
+	(void)t; int s = ST(errst_status); if (s != KSI_OK) return s;
+	*st = ND_BOOL(err_has_status) ? err_status : NULL;
+	if (*st != NULL && KSI_Integer_getUInt64(*st) != 0) g_err_status_nonzero = 1;   /* the code was handed a non-zero error status */
+	return KSI_OK;
+}
 
 void harness(void) {
 	VERIF_ctx_init();
@@ -167,7 +175,11 @@ void harness(void) {
 		CHECK(out == &the_resp || (out == &fresh_resp && out->has_conf), "C06.H5 the returned object is the PDU's response or a new one carrying the verified configuration");
 	}
 	if (has_err && g_parse_ok) {
+		/* has_err, has_resp and has_conf are independent: this covers a reply that carries an error payload TOGETHER with a well-formed response
+		 * and / or configuration payload (upstream test testAggregationResponseWithResponseAndErrorPayload) */
 		CHECK(out == NULL && g_payload_touched == 0 && g_callback_calls == 0, "C06.H5 an error PDU delivers nothing");
+		CHECK(!g_err_status_nonzero || res != KSI_OK, "C07.H5s a reply with an error payload of non-zero status is reported as an error, whatever other payloads it carries");
+		if (has_resp && has_hdr && has_mac && res == KSI_SERVICE_INVALID_REQUEST) WITNESS_POINT("error payload next to a response payload: error reported, no response object");
 	}
 	if (res != KSI_OK) CHECK(out == NULL, "C06.H5 no response object together with an error status");
 	CHECK(the_pdu.freed == g_parse_ok, "C06.H5 the PDU object is released exactly once");
